@@ -20,6 +20,7 @@ import (
 	"github.com/form3tech-oss/f1/v2/internal/verifshim/vatomic"
 	"github.com/form3tech-oss/f1/v2/internal/verifshim/vctx"
 	"github.com/form3tech-oss/f1/v2/internal/verifshim/vrt"
+	"github.com/form3tech-oss/f1/v2/internal/verifshim/vtime"
 	"github.com/form3tech-oss/f1/v2/internal/workers"
 	"github.com/form3tech-oss/f1/v2/pkg/f1/scenarios"
 	f1testing "github.com/form3tech-oss/f1/v2/pkg/f1/testing"
@@ -29,10 +30,14 @@ type cfg struct {
 	interval time.Duration
 	length   time.Duration
 	profile  []int
-	gated    bool // concurrency 1 and bodies that block until the end: value = starts + drops
+	gated    bool          // concurrency 1 and bodies that block until the end: value = starts + drops
+	slow     time.Duration // concurrency 1 and bodies that take this long (not a multiple of the interval): exact starts/drops from a reference simulation
 }
 
 func (c cfg) name() string {
+	if c.slow > 0 {
+		return fmt.Sprintf("ticker/interval=%s/length=%s/profile=%v/slow-body=%s", c.interval, c.length, c.profile, c.slow)
+	}
 	return fmt.Sprintf("ticker/interval=%s/length=%s/profile=%v/gated=%v", c.interval, c.length, c.profile, c.gated)
 }
 
@@ -56,6 +61,9 @@ func scenario(c cfg) vrt.Scenario {
 			if c.gated {
 				vrt.WaitUntil("gate", func() bool { return x.gate.Peek() })
 			}
+			if c.slow > 0 {
+				vtime.Sleep(c.slow)
+			}
 		}}
 		as := workers.NewActiveScenario(sc, m, x.stats, hlib.DiscardLogger(), hlib.DiscardLogrus())
 		mgr := workers.New(0, as)
@@ -67,7 +75,7 @@ func scenario(c cfg) vrt.Scenario {
 			return v
 		}
 		conc := 1
-		if !c.gated {
+		if !c.gated && c.slow == 0 {
 			for _, v := range c.profile {
 				if v > conc {
 					conc = v
@@ -135,7 +143,13 @@ func scenario(c cfg) vrt.Scenario {
 			if w.started+dropped != sum {
 				o.Fail("C09/value-is-request", "not-unchanged", fmt.Sprintf("started %d + dropped %d, sum of evaluated values %d", w.started, dropped, sum))
 			}
-			if !c.gated {
+			if c.slow > 0 {
+				ws, wd := simulate(c)
+				if w.started != ws || dropped != wd {
+					o.Fail("C09/value-is-request", "superseded-work", fmt.Sprintf("one slow worker: started %d dropped %d, a pool that lets each tick's value supersede what is pending gives %d and %d", w.started, dropped, ws, wd))
+				}
+			}
+			if !c.gated && c.slow == 0 {
 				for t, v := range valueAt {
 					if beginsAt[t] != v {
 						o.Fail("C09/value-is-request", "tick-value", fmt.Sprintf("tick at %dns evaluated to %d but %d iterations started then", t, v, beginsAt[t]))
@@ -149,6 +163,41 @@ func scenario(c cfg) vrt.Scenario {
 	return vrt.Scenario{Name: c.name(), Body: body, Post: post, Memo: true, Horizon: time.Minute, MaxSteps: 60000}
 }
 
+// simulate is the reference for one worker with bodies of c.slow: each tick's
+// value replaces what is pending (the replaced ones are dropped), the worker
+// takes pending work whenever it is idle, what is pending at the end is dropped.
+func simulate(c cfg) (started, dropped int) {
+	pending := 0
+	busyUntil := time.Duration(-1)
+	k := 0
+	for t := time.Duration(0); t < c.length; t += c.interval {
+		// the worker may have become idle before this tick and taken pending work
+		for busyUntil >= 0 && busyUntil <= t && pending > 0 {
+			pending--
+			started++
+			busyUntil += c.slow
+		}
+		if busyUntil >= 0 && busyUntil <= t {
+			busyUntil = -1
+		}
+		dropped += pending
+		pending = c.profile[k%len(c.profile)]
+		k++
+		if busyUntil < 0 && pending > 0 {
+			pending--
+			started++
+			busyUntil = t + c.slow
+		}
+	}
+	for busyUntil >= 0 && busyUntil < c.length && pending > 0 {
+		pending--
+		started++
+		busyUntil += c.slow
+	}
+	dropped += pending
+	return
+}
+
 func scenariosFor(tier string) []vrt.Scenario {
 	var out []vrt.Scenario
 	ms := time.Millisecond
@@ -157,6 +206,11 @@ func scenariosFor(tier string) []vrt.Scenario {
 	b := 1
 	if tier != "quick" {
 		b = 3
+	}
+	for _, p := range [][]int{{3, 0, 0, 0, 0}, {2, 0, 1, 3}} {
+		s := scenario(cfg{interval: 100 * ms, length: 450 * ms, profile: p, slow: 130 * ms})
+		s.Bound = b
+		out = append(out, s)
 	}
 	for _, iv := range intervals {
 		lengths := []time.Duration{iv / 2, iv, iv*5/2 + ms, 3*iv - ms}
@@ -169,7 +223,7 @@ func scenariosFor(tier string) []vrt.Scenario {
 					if tier == "quick" && (pi == 1 || (gated && pi == 0)) {
 						continue
 					}
-					s := scenario(cfg{iv, L, p, gated})
+					s := scenario(cfg{interval: iv, length: L, profile: p, gated: gated})
 					s.Bound = b
 					maxv := 0
 					for _, v := range p {
